@@ -228,3 +228,294 @@ Ltac proj_norm :=
           ?(quiet_run_inv _ _ (Quiet_reading _ _)), ?(quiet_fb_inv _ _ (Quiet_reading _ _)),
           ?(quiet_returns _ _ (Quiet_reading _ _)), ?(quiet_all_inv _ (Quiet_reading _ _)),
           ?(quiet_any_run_ev _ (Quiet_reading _ _)), ?(quiet_any_fb_ev _ (Quiet_reading _ _)).
+
+(* ====================================================================== *)
+(* the table of calls                                                      *)
+(* ====================================================================== *)
+Lemma find_call_calls id s s' : calls s' = calls s -> find_call id s' = find_call id s.
+Proof. unfold find_call. intros ->. reflexivity. Qed.
+
+Lemma find_call_id id s cs : find_call id s = Some cs -> cs_id cs = id.
+Proof. unfold find_call. intros H. apply find_some in H. destruct H as [_ H]. lia. Qed.
+
+Lemma find_call_drop id id' s :
+  find_call id (drop_call id' s) = if Nat.eqb id' id then None else find_call id s.
+Proof.
+  unfold find_call, drop_call. cbn [calls set_calls].
+  destruct (Nat.eqb id' id) eqn:E.
+  - apply find_filter_none. intros x Hx. lia.
+  - apply find_filter_keep. intros x Hx. lia.
+Qed.
+
+Lemma find_call_put id c s :
+  find_call id (put_call c s) = if Nat.eqb (cs_id c) id then Some c else find_call id s.
+Proof.
+  unfold find_call, put_call. cbn [calls set_calls find].
+  destruct (Nat.eqb (cs_id c) id) eqn:E; [reflexivity|].
+  apply find_filter_keep. intros x Hx. lia.
+Qed.
+
+(* the phase call id is in, if it is in flight *)
+Definition ph (id : nat) (s : state) : option phase := option_map cs_phase (find_call id s).
+
+Lemma ph_calls id s s' : calls s' = calls s -> ph id s' = ph id s.
+Proof. unfold ph. intros H. rewrite (find_call_calls id s s' H). reflexivity. Qed.
+Lemma ph_drop id id' s : ph id (drop_call id' s) = if Nat.eqb id' id then None else ph id s.
+Proof. unfold ph. rewrite find_call_drop. destruct (Nat.eqb id' id); reflexivity. Qed.
+Lemma ph_put id c s : ph id (put_call c s) = if Nat.eqb (cs_id c) id then Some (cs_phase c) else ph id s.
+Proof. unfold ph. rewrite find_call_put. destruct (Nat.eqb (cs_id c) id); reflexivity. Qed.
+
+(* ====================================================================== *)
+(* transitions: quiet output, calls untouched                              *)
+(* ====================================================================== *)
+Lemma emit_circ_spec st k t s :
+  Quiet (snd (emit_circ st k t s)) /\ calls (fst (emit_circ st k t s)) = calls s.
+Proof.
+  unfold emit_circ. destruct (closer_circ t (cls s)) as [c1 timers]. cbn [fst snd]. split; [|reflexivity].
+  apply Quiet_cons; [reflexivity|]. apply Quiet_app; [apply Quiet_map; reflexivity|].
+  apply Quiet_cons; [reflexivity|]. apply Quiet_map; reflexivity.
+Qed.
+
+Lemma open_circuit_spec st t s :
+  Quiet (snd (open_circuit st t s)) /\ calls (fst (open_circuit st t s)) = calls s.
+Proof.
+  unfold open_circuit.
+  destruct (l_forced_closed (cfg s)); [split; [constructor|reflexivity]|].
+  destruct (is_open s); [split; [constructor|reflexivity]|].
+  pose proof (emit_circ_spec st Opened t s) as [Q C].
+  destruct (emit_circ st Opened t s) as [s1 o]. cbn [fst snd] in *. split; assumption.
+Qed.
+
+Lemma close_circuit_spec st t force ans s :
+  Quiet (snd (close_circuit st t force ans s)) /\ calls (fst (close_circuit st t force ans s)) = calls s.
+Proof.
+  unfold close_circuit.
+  destruct (negb (is_open s)); [split; [constructor|reflexivity]|].
+  destruct (l_force_open (cfg s)); [split; [constructor|reflexivity]|].
+  pose proof (emit_circ_spec st Closed t s) as [Q C].
+  destruct force.
+  - destruct (emit_circ st Closed t s) as [s1 o]. cbn [fst snd] in *. split; assumption.
+  - destruct (closer_should_close ans (cls s)).
+    + destruct (emit_circ st Closed t s) as [s1 o]. cbn [fst snd] in *.
+      split; [apply Quiet_cons; [reflexivity|assumption]|assumption].
+    + split; [repeat constructor|reflexivity].
+Qed.
+
+Lemma attempt_to_open_spec st t ans s :
+  Quiet (snd (attempt_to_open st t ans s)) /\ calls (fst (attempt_to_open st t ans s)) = calls s.
+Proof.
+  unfold attempt_to_open.
+  destruct (l_forced_closed (cfg s)); [split; [constructor|reflexivity]|].
+  destruct (is_open s); [split; [constructor|reflexivity]|].
+  destruct (opener_should_open t ans (opn s)) as [o1 b].
+  destruct b.
+  - pose proof (open_circuit_spec st t (set_logic s o1 (cls s))) as [Q C].
+    destruct (open_circuit st t (set_logic s o1 (cls s))) as [s2 o]. cbn [fst snd] in *.
+    split; [apply Quiet_cons; [reflexivity|assumption]|exact C].
+  - split; [repeat constructor|reflexivity].
+Qed.
+
+(* ====================================================================== *)
+(* the fallback stage                                                      *)
+(* ====================================================================== *)
+Definition fb_after (ran derived done : bool) : bool :=
+  if ran then (if derived then true else done) else false.
+
+Lemma fallback_stage_char st cs err ran derived s :
+  fallback_stage st cs err ran derived s =
+  if fb_available s (cs_call cs) then
+    if fb_limit_hit s
+    then (drop_call (cs_id cs) s,
+          emit_fb st FKReject (clock s) None ++ [OReturned (cs_id cs) VFbThrottled (fb_after ran derived (cs_done cs))])
+    else (put_call {| cs_id := cs_id cs; cs_call := cs_call cs; cs_phase := PFb (clock s) ran derived; cs_done := cs_done cs |}
+                   (set_fbs s (fbs s + 1)),
+          [OFbInvoked (cs_id cs) err true])
+  else (drop_call (cs_id cs) s, [OReturned (cs_id cs) err (fb_after ran derived (cs_done cs))]).
+Proof.
+  unfold fallback_stage, fb_available, fb_limit_hit, fb_after.
+  destruct (has_fb_eff (cs_call cs)); cbn [negb orb andb]; [|reflexivity].
+  destruct (l_fb_disabled (cfg s)); cbn [negb]; [reflexivity|].
+  destruct ((0 <=? l_fb_max (cfg s)) && (l_fb_max (cfg s) <? fbs s + 1)); reflexivity.
+Qed.
+
+(* "settled": the call is gone or in its fallback; its run function will not be heard of again *)
+Definition settled (id : nat) (s : state) : Prop :=
+  ph id s = None \/ exists t r d, ph id s = Some (PFb t r d).
+
+Lemma fallback_stage_ph_other st cs err ran derived s id :
+  cs_id cs <> id -> ph id (fst (fallback_stage st cs err ran derived s)) = ph id s.
+Proof.
+  intros H. rewrite fallback_stage_char.
+  destruct (fb_available s (cs_call cs)); [destruct (fb_limit_hit s)|]; cbn [fst].
+  - rewrite ph_drop. destruct (Nat.eqb (cs_id cs) id) eqn:E; [lia|reflexivity].
+  - rewrite ph_put. cbn [cs_id]. destruct (Nat.eqb (cs_id cs) id) eqn:E; [lia|reflexivity].
+  - rewrite ph_drop. destruct (Nat.eqb (cs_id cs) id) eqn:E; [lia|reflexivity].
+Qed.
+
+Lemma fallback_stage_settled st cs err ran derived s :
+  settled (cs_id cs) (fst (fallback_stage st cs err ran derived s)).
+Proof.
+  rewrite fallback_stage_char. unfold settled.
+  destruct (fb_available s (cs_call cs)); [destruct (fb_limit_hit s)|]; cbn [fst].
+  - left. rewrite ph_drop, Nat.eqb_refl. reflexivity.
+  - right. rewrite ph_put. cbn [cs_id cs_phase]. rewrite Nat.eqb_refl. eauto.
+  - left. rewrite ph_drop, Nat.eqb_refl. reflexivity.
+Qed.
+
+(* what the fallback stage shows, piece by piece *)
+Lemma fallback_stage_run_evs st cs err ran derived s w :
+  run_evs w (snd (fallback_stage st cs err ran derived s)) = [].
+Proof.
+  rewrite fallback_stage_char.
+  destruct (fb_available s (cs_call cs)); [destruct (fb_limit_hit s)|]; cbn [snd]; proj_norm; reflexivity.
+Qed.
+Lemma fallback_stage_any_run_ev st cs err ran derived s :
+  any_run_ev (snd (fallback_stage st cs err ran derived s)) = [].
+Proof.
+  rewrite fallback_stage_char.
+  destruct (fb_available s (cs_call cs)); [destruct (fb_limit_hit s)|]; cbn [snd]; proj_norm; reflexivity.
+Qed.
+Lemma fallback_stage_all_inv st cs err ran derived s :
+  all_inv (snd (fallback_stage st cs err ran derived s)) = [].
+Proof.
+  rewrite fallback_stage_char.
+  destruct (fb_available s (cs_call cs)); [destruct (fb_limit_hit s)|]; cbn [snd]; proj_norm; reflexivity.
+Qed.
+
+(* the refusal outcome is decided by the fallback stage alone *)
+Lemma fallback_stage_refusal st id c err s s' o :
+  cfg s' = cfg s -> fbs s' = fbs s ->
+  returns id o = returns id (snd (fallback_stage st {| cs_id := id; cs_call := c; cs_phase := PPass; cs_done := c_done c |} err false false s')) ->
+  fb_invocations id o = fb_invocations id (snd (fallback_stage st {| cs_id := id; cs_call := c; cs_phase := PPass; cs_done := c_done c |} err false false s')) ->
+  refusal_outcome s id c err o.
+Proof.
+  intros Hc Hf Hr Hi. rewrite fallback_stage_char in Hr, Hi. cbn [cs_id cs_call cs_done fb_after] in Hr, Hi.
+  unfold refusal_outcome.
+  assert (Ea : fb_available s' c = fb_available s c) by (unfold fb_available; rewrite Hc; reflexivity).
+  assert (El : fb_limit_hit s' = fb_limit_hit s) by (unfold fb_limit_hit; rewrite Hc, Hf; reflexivity).
+  rewrite Ea, El in Hr, Hi.
+  destruct (fb_available s c); [destruct (fb_limit_hit s)|]; cbn [snd] in Hr, Hi;
+    revert Hr Hi; proj_norm; cbn; rewrite Nat.eqb_refl; cbn; intros -> ->; split; reflexivity.
+Qed.
+
+(* ====================================================================== *)
+(* Begin                                                                   *)
+(* ====================================================================== *)
+Definition cs_pass (id : nat) (c : call) : callst :=
+  {| cs_id := id; cs_call := c; cs_phase := PPass; cs_done := c_done c |}.
+
+(* allowNewRun, as begin_call inlines it *)
+Definition allow_res (s : state) (c : call) : state * bool * list obs :=
+  if negb (is_open s) then (s, true, [])
+  else if l_force_open (cfg s) then (s, false, [])
+  else let '(cl1, b, timers) := closer_allow (clock s) (c_allow c) (cls s) in
+       (set_logic s (opn s) cl1, b, OAsked QAllow (clock s) :: map OTimer timers).
+
+Lemma set_logic_same s : set_logic s (opn s) (cls s) = s.
+Proof. destruct s; reflexivity. Qed.
+
+Lemma allow_res_spec s c :
+  exists cl1 o1, allow_res s c = (set_logic s (opn s) cl1, negb (shed_by_open s c), o1) /\ Quiet o1.
+Proof.
+  unfold allow_res, shed_by_open, closer_admits.
+  destruct (is_open s); cbn [negb andb].
+  - destruct (l_force_open (cfg s)); cbn [orb negb].
+    + exists (cls s), []. rewrite set_logic_same. split; [reflexivity|constructor].
+    + destruct (closer_allow (clock s) (c_allow c) (cls s)) as [[cl1 b] timers]. cbn [fst snd].
+      exists cl1, (OAsked QAllow (clock s) :: map OTimer timers). rewrite negb_involutive.
+      split; [reflexivity|]. apply Quiet_cons; [reflexivity|]. apply Quiet_map; reflexivity.
+  - exists (cls s), []. rewrite set_logic_same. split; [reflexivity|constructor].
+Qed.
+
+(* begin_call on an enabled circuit, for a call that has a run function, by the gate's verdict.
+   s1 is s with the closer as Allow left it; o1 is what Allow showed (a question and timers). *)
+Lemma begin_call_char st id c s :
+  enabled st s -> c_has_run c = true ->
+  exists cl1 o1, Quiet o1 /\
+    let s1 := set_logic s (opn s) cl1 in
+    begin_call st id c s =
+    match gate s c with
+    | GShed =>
+        let r := fallback_stage st (cs_pass id c) VCircuitOpen false false (fst (emit_run st KShort (clock s) None s1)) in
+        (fst r, o1 ++ run_fan st KShort (clock s) None ++ snd r)
+    | GVeto =>
+        let r := fallback_stage st (cs_pass id c) VCircuitOpen false false s1 in
+        (fst r, o1 ++ OAsked QPrevent (clock s) :: snd r)
+    | GReject =>
+        let r := fallback_stage st (cs_pass id c) VThrottled false false (fst (emit_run st KReject (clock s) None s1)) in
+        (fst r, o1 ++ OAsked QPrevent (clock s) :: run_fan st KReject (clock s) None ++ snd r)
+    | GRun =>
+        let derived := 0 <? l_timeout (cfg s) in
+        (put_call {| cs_id := id; cs_call := c;
+                     cs_phase := PRun (clock s) (if derived then Some (clock s + l_timeout (cfg s)) else None) derived;
+                     cs_done := c_done c |}
+                  (set_cmds s1 (cmds s + 1)),
+         o1 ++ [OAsked QPrevent (clock s);
+                ORunInvoked id derived (if derived then Some (min_deadline (c_deadline c) (clock s + l_timeout (cfg s))) else c_deadline c)])
+    end.
+Proof.
+  intros [Hm Hd] Hr.
+  destruct (allow_res_spec s c) as (cl1 & o1 & E & Q). exists cl1, o1. split; [exact Q|].
+  cbv zeta. unfold begin_call. rewrite Hm, Hd, Hr. cbv zeta. cbn [negb].
+  unfold allow_res in E. rewrite E. unfold gate, run_limit_hit.
+  destruct (shed_by_open s c); cbn [negb].
+  - unfold emit_run, run_fan, cs_pass. cbn [fst snd].
+    destruct (fallback_stage st _ VCircuitOpen false false _) as [s3 o3]. reflexivity.
+  - cbn [opn set_logic cfg cmds].
+    destruct (opener_prevent (c_prevent c) (opn s)).
+    + unfold cs_pass. destruct (fallback_stage st _ VCircuitOpen false false _) as [s3 o3]. reflexivity.
+    + destruct ((0 <=? l_max (cfg s)) && (l_max (cfg s) <? cmds s + 1)).
+      * unfold emit_run, run_fan, cs_pass. cbn [fst snd].
+        destruct (fallback_stage st _ VThrottled false false _) as [s3 o3]. reflexivity.
+      * reflexivity.
+Qed.
+
+Lemma step_begin st s id c :
+  step st s (Begin id c) =
+  (fst (begin_call st id c s), snd (begin_call st id c s) ++ [reading st (fst (begin_call st id c s))]).
+Proof. unfold step, step_core. destruct (begin_call st id c s); reflexivity. Qed.
+
+Lemma shed_step st : forall s id c,
+  enabled st s -> c_has_run c = true -> shed_by_open s c = true ->
+  let o := snd (step st s (Begin id c)) in
+  run_invocations id o = [] /\
+  (forall w, In w (run_collectors st) -> run_evs w o = [(KShort, clock s, None)]) /\
+  length (any_run_ev o) = length (run_collectors st) /\
+  refusal_outcome s id c VCircuitOpen o.
+Proof.
+  intros s id c He Hr Hs o. subst o. rewrite step_begin. cbn [snd].
+  destruct (begin_call_char st id c s He Hr) as (cl1 & o1 & Q & E). cbv zeta in E. rewrite E. clear E.
+  unfold gate. rewrite Hs. cbn [fst snd].
+  set (s2 := fst (emit_run st KShort (clock s) None (set_logic s (opn s) cl1))).
+  set (r := fallback_stage st (cs_pass id c) VCircuitOpen false false s2).
+  repeat split.
+  - apply run_inv_of_all_inv. proj_norm. unfold r. rewrite fallback_stage_all_inv, (quiet_all_inv _ Q).
+    intros [].
+  - intros w Hw. proj_norm. unfold r. rewrite fallback_stage_run_evs, (quiet_run_evs _ _ Q), (run_fan_run_evs _ _ _ _ _ Hw).
+    reflexivity.
+  - proj_norm. unfold r. rewrite fallback_stage_any_run_ev, (quiet_any_run_ev _ Q).
+    cbn [app]. rewrite !app_nil_r. apply run_fan_length.
+  - apply (fallback_stage_refusal st id c VCircuitOpen s s2); try reflexivity; fold (cs_pass id c); fold r;
+      proj_norm; rewrite ?(quiet_returns _ _ Q), ?(quiet_fb_inv _ _ Q); cbn [app]; rewrite app_nil_r; reflexivity.
+Qed.
+
+Lemma veto_step st : forall s id c,
+  enabled st s -> c_has_run c = true -> vetoed s c = true ->
+  let o := snd (step st s (Begin id c)) in
+  run_invocations id o = [] /\ any_run_ev o = [] /\ refusal_outcome s id c VCircuitOpen o.
+Proof.
+  intros s id c He Hr Hv o. subst o. rewrite step_begin. cbn [snd].
+  destruct (begin_call_char st id c s He Hr) as (cl1 & o1 & Q & E). cbv zeta in E. rewrite E. clear E.
+  unfold vetoed in Hv. apply andb_prop in Hv. destruct Hv as [Hs Hp].
+  unfold gate. destruct (shed_by_open s c); [discriminate Hs|]. rewrite Hp. cbn [fst snd].
+  set (s1 := set_logic s (opn s) cl1).
+  set (r := fallback_stage st (cs_pass id c) VCircuitOpen false false s1).
+  repeat split.
+  - apply run_inv_of_all_inv. proj_norm. rewrite all_inv_cons. unfold r.
+    rewrite fallback_stage_all_inv, (quiet_all_inv _ Q). intros [].
+  - proj_norm. rewrite any_run_ev_cons. unfold r. rewrite fallback_stage_any_run_ev, (quiet_any_run_ev _ Q).
+    reflexivity.
+  - apply (fallback_stage_refusal st id c VCircuitOpen s s1); try reflexivity; fold (cs_pass id c); fold r;
+      proj_norm; rewrite ?returns_cons, ?fb_inv_cons, ?(quiet_returns _ _ Q), ?(quiet_fb_inv _ _ Q);
+      cbn [app returns fb_invocations flat_map]; rewrite app_nil_r; reflexivity.
+Qed.
